@@ -4,7 +4,10 @@ Metamorphic monitors (two executions of the real code that must agree):
  * str(parse(t)) re-parses to something that prints the same and decides the same;
  * str(Rules) loads back (Rules.load) to an equivalent rule set;
  * a run-wide dictionary printed-text -> decision vector shows that equal printed forms decide identically;
- * RuleDefault.__eq__ true implies identical decisions."""
+ * RuleDefault.__eq__ true implies identical decisions;
+ * print - evaluate - print histories: the printed form of a living rule / the dump of a living rule set is the one the
+   text was taken from also after the rule (set) has been evaluated, so that "parse(print(r)) prints like r" holds at
+   any moment of r's life and not only right after parsing."""
 import json
 
 from unittest import mock
@@ -19,7 +22,12 @@ TECHNIQUE = ('metamorphic runtime monitor: parse -> print -> parse on the real p
 RULE = ('cases = T: expression-generator rules in text form over leaves of every built-in kind (role, rule:, generic '
         'literal and path, http/https with a stub transport, @, !) in several spellings; Ls: the same as list-of-lists '
         'values; S: rule sets of <= 6 rules with always-allow entries ("", "@", []) dumped with str(Rules) and re-loaded, then changed (update / item assignment / merge through an enforcer / deletion) and dumped and re-loaded again; '
-        'Q: pairs of RuleDefault objects compared with ==. Decisions are taken in 24 worlds (credentials x target) '
+        'Q: pairs of RuleDefault objects compared with ==; '
+        'E (print - evaluate - print): after its first print the parsed rule (every Ls value; for the first text of a T case the .check of one of two '
+        'RuleDefaults built from the same name and text) is evaluated in all 24 worlds, ordered on the truth of its leaves so that late leaves '
+        'accept / early leaves reject first, alternating with the opposite, printing after every evaluation: the print must stay the first print, stay a '
+        'fix-point of print-parse, and the rule parsed from the FIRST print must print and decide like the evaluated object; every rule of an S set is '
+        'enforced in all worlds and the dump must be unchanged and still describe the living set; identical RuleDefaults must be and stay equal. Decisions are taken in 24 worlds (credentials x target) '
         'chosen so that every leaf kind varies. Non-trivial = the decision vector is not constant; distinct = distinct rule value.')
 ASSUMPTIONS = ['leaves contain no whitespace and, in list form, no leading ( or trailing ) - the tokenizer can never produce such a leaf from text',
                'a lone quoted string is not a rule of the language (C02 covers it)',
@@ -30,7 +38,9 @@ LEVEL_TEXT = ('Seeded sampling of rules over all leaf kinds; each is printed and
 LEVEL_NOTE = 'trusted: the world set distinguishes rules only up to those 24 evaluations; a stub of requests.post as transport'
 PLAN = {'quick': dict(shards=4, wall=60), 'thorough': dict(shards=16, wall=400)}
 MIN = {'evaluations': 2000, 'reparsed_rules': 2000, 'rulesets_roundtripped': 100, 'eq_true_pairs': 50,
-       'printed_forms_with_multiple_sources': 50, 'second_dumps': 50}
+       'printed_forms_with_multiple_sources': 50, 'second_dumps': 50,
+       'prints_after_evaluation': 10000, 'histories_with_or_alternatives': 150, 'dumps_after_enforcing': 100,
+       'identical_ruledefaults_after_evaluation': 300}
 ANCHORS = ['oslo_policy._parser:parse_rule', 'oslo_policy.policy:Rules.__str__', 'oslo_policy.policy:Rules.load',
            'oslo_policy.policy:RuleDefault.__eq__', 'oslo_policy._checks:AndCheck.__str__', 'oslo_policy._checks:OrCheck.__str__',
            'oslo_policy._checks:NotCheck.__str__']
@@ -68,6 +78,7 @@ class Real:
         self._parser = _parser
         self.enf = policy.Enforcer(env.fresh_conf(), use_conf=False)
         self.helpers = {k: _parser.parse_rule(v) for k, v in HELPERS.items()}
+        self.leafvec = {}
 
     def vector(self, check):
         """Decisions of a check tree in every world (the helpers h1/h2 are defined)."""
@@ -82,11 +93,69 @@ class Real:
                 out.append('E(%s)' % type(e).__name__)
         return ''.join(out)
 
+    def evaluate(self, check, order, printed=None):
+        """Decisions of one living check object in the worlds taken in `order`; the object is printed after every
+        evaluation.  Returns (decisions in canonical world order, [world index, print] of the first print that is
+        not `printed`, or None)."""
+        rules = dict(self.helpers)
+        rules['p'] = check
+        self.enf.set_rules(self.policy.Rules(rules))
+        out = [None] * len(WORLDS)
+        changed = None
+        for w in order:
+            creds, target = WORLDS[w]
+            try:
+                out[w] = '1' if self.enf.enforce('p', target, creds) else '0'
+            except Exception as e:
+                out[w] = 'E(%s)' % type(e).__name__
+            if printed is not None and changed is None:
+                now = str(check)
+                if now != printed:
+                    changed = [w, now]
+        return ''.join(out), changed
 
+    def leaf_vector(self, leaf):
+        v = self.leafvec.get(leaf)
+        if v is None:
+            try:
+                v = self.vector(self._parser.parse_rule(leaf))
+            except Exception:
+                v = ''
+            if len(v) != len(WORLDS) or set(v) - set('01'):
+                v = '0' * len(WORLDS)
+            self.leafvec[leaf] = v
+        return v
+
+    def world_order(self, printed):
+        """All worlds, in an order computed from the printed rule (so a replay takes the same one): the leaves are
+        read off the printed text left to right; a world scores high when late leaves accept and early leaves reject
+        (a later alternative of an or-node is the one that accepts), low when early leaves accept and late ones reject
+        (a later operand of an and-node is the one that rejects).  The order alternates between the two ends.
+        Returns (order, whether some world separates two leaves of the rule)."""
+        leaves = []
+        for tok in printed.split():
+            tok = tok.lstrip('(').rstrip(')')
+            if tok and tok.lower() not in ('and', 'or', 'not'):
+                leaves.append(self.leaf_vector(tok))
+        k = len(leaves)
+        score = [sum((2 * i - (k - 1)) * (lv[w] == '1') for i, lv in enumerate(leaves)) for w in range(len(WORLDS))]
+        ranked = sorted(range(len(WORLDS)), key=lambda w: (-score[w], w))
+        order = []
+        lo, hi = 0, len(ranked) - 1
+        while lo <= hi:
+            order.append(ranked[lo])
+            lo += 1
+            if lo <= hi:
+                order.append(ranked[hi])
+                hi -= 1
+        return order, len(set(leaves)) > 1
+
+
+CANONICAL = list(range(len(WORLDS)))
 PRINTED = {}      # printed form -> (vector, first source)
 
 
-def roundtrip(ctx, real, value, case, stratum):
+def roundtrip(ctx, real, value, case, stratum, hist=False):
     P = real._parser
     try:
         c1 = P.parse_rule(value)
@@ -109,6 +178,16 @@ def roundtrip(ctx, real, value, case, stratum):
         ctx.violation('reparsed-rule-decides-differently', case, {'rule': value, 'printed': s1, 'decisions': v1,
                                                                   'decisions_after_reparse': v2})
         return None
+    # print - evaluate - print: both objects have been evaluated in every world by now
+    ctx.count('prints_after_evaluation', 2)
+    for what, obj in (('parsed', c1), ('parsed-from-print', c2)):
+        now = str(obj)
+        if now != s1:
+            ctx.violation('printed-form-changes-by-evaluating', case,
+                          {'rule': value, 'object': what, 'printed_before': s1, 'printed_after_evaluating_in_all_worlds': now})
+            break
+    if hist and history(ctx, real, value, case) is None:
+        return None
     prev = PRINTED.get(s1)
     if prev is None:
         PRINTED[s1] = [v1, json.dumps(value), 1]
@@ -122,6 +201,54 @@ def roundtrip(ctx, real, value, case, stratum):
                           {'printed': s1, 'rule_a': prev[1], 'decisions_a': prev[0], 'rule_b': value, 'decisions_b': v1})
             return None
     return s1, v1
+
+
+def history(ctx, real, value, case, living=None):
+    """print - evaluate - print on ONE living object (a fresh parse of `value`, or `living`): the text taken from it
+    before it was used must stay its print, and the rule parsed from that text must keep printing and deciding like it."""
+    P = real._parser
+    try:
+        c = P.parse_rule(value) if living is None else living
+        s = str(c)
+        first = P.parse_rule(s)             # parsed from the FIRST print; not evaluated until the end
+        order, separated = real.world_order(s)
+        vE, changed = real.evaluate(c, order, printed=s)
+        s3 = str(c)
+        s4 = str(P.parse_rule(s3))
+        sF = str(first)
+        if ' or ' in s or ' and ' in s:
+            vF, changedF = real.evaluate(first, CANONICAL, printed=sF)
+        else:
+            # no connective: the decisions of the rule parsed from the print were compared by the caller already
+            vF, changedF = vE, None
+    except Exception as e:
+        ctx.violation('print-or-parse-raises', case, {'rule': value, 'stratum': 'E', 'observed': type(e).__name__ + ': ' + str(e)[:100]})
+        return None
+    ctx.count('histories')
+    ctx.count('prints_after_evaluation', 2 * len(WORLDS))
+    if separated and ' or ' in s:
+        ctx.count('histories_with_or_alternatives')
+    if separated and ' and ' in s:
+        ctx.count('histories_with_and_operands')
+    if changed is not None or s3 != s:
+        w, now = changed if changed is not None else [None, s3]
+        ctx.violation('printed-form-changes-by-evaluating', case,
+                      {'rule': value, 'object': 'parsed', 'printed_before': s, 'printed_after': now,
+                       'after_evaluating_in_world': None if w is None else {'index': w, 'creds': WORLDS[w][0], 'target': WORLDS[w][1]}})
+        return None
+    if s4 != s3:
+        ctx.violation('printed-form-not-a-fix-point', case, {'rule': value, 'after': 'evaluation in all worlds', 'printed': s3, 'reprinted': s4})
+        return None
+    if sF != s3 or changedF is not None:
+        ctx.violation('rule-from-first-print-prints-differently-from-the-evaluated-rule', case,
+                      {'rule': value, 'first_print': s, 'evaluated_rule_prints': s3, 'rule_parsed_from_first_print_prints': sF,
+                       'and_after_its_own_evaluation': changedF and changedF[1]})
+        return None
+    if vF != vE:
+        ctx.violation('reparsed-rule-decides-differently', case,
+                      {'rule': value, 'printed': s, 'decisions_of_the_evaluated_rule': vE, 'decisions_of_the_rule_parsed_from_its_first_print': vF})
+        return None
+    return s, vE
 
 
 def gen_ast(rnd):
@@ -178,8 +305,47 @@ def check_case(ctx, real, case):
                     if r[1] != res[0][1]:
                         ctx.violation('equal-ruledefaults-decide-differently', case,
                                       {'a': case['texts'][0], 'b': case['other'], 'decisions_a': res[0][1], 'decisions_b': r[1]})
+        # two RuleDefaults built from the same name and text are equal and stay equal while one of them is in use
+        # (its .check evaluated in all worlds); a default in use is equal only to defaults that decide like it
+        try:
+            d1, d2 = P.RuleDefault('n', case['texts'][0]), P.RuleDefault('n', case['texts'][0])
+            eq0 = (d1 == d2, d2 == d1)
+        except Exception as e:
+            ctx.violation('ruledefault-eq-raises', case, {'observed': type(e).__name__})
+            return
+        if eq0 != (True, True):
+            ctx.violation('identical-ruledefaults-not-equal', case, {'text': case['texts'][0], 'evaluated': False,
+                                                                     'a==b': eq0[0], 'b==a': eq0[1]})
+            return
+        h = history(ctx, real, case['texts'][0], case, living=d1.check)
+        try:
+            eq1 = (d1 == d2, d2 == d1)
+            others = [(t, P.RuleDefault('n', t) == d1) for t in case['texts'][1:] + ([case['other']] if 'other' in case else [])]
+        except Exception as e:
+            ctx.violation('ruledefault-eq-raises', case, {'observed': type(e).__name__})
+            return
+        ctx.count('identical_ruledefaults_after_evaluation')
+        if eq1 != (True, True):
+            ctx.violation('identical-ruledefaults-not-equal', case,
+                          {'text': case['texts'][0], 'evaluated': 'the .check of a, in all worlds', 'a==b': eq1[0], 'b==a': eq1[1],
+                           'a.check': str(d1.check), 'b.check': str(d2.check)})
+            return
+        if h is None:
+            return
+        known = dict(zip(case['texts'], (r[1] for r in res)))
+        for t, eq in others:
+            ctx.count('eq_pairs')
+            if eq:
+                ctx.count('eq_true_pairs')
+                v = known.get(t)
+                if v is None:
+                    v = real.vector(real._parser.parse_rule(t))
+                if v != h[1]:
+                    ctx.violation('equal-ruledefaults-decide-differently', case,
+                                  {'a': case['texts'][0], 'a_evaluated': True, 'b': t, 'decisions_a': h[1], 'decisions_b': v})
+                    return
     elif kind == 'Ls':
-        roundtrip(ctx, real, case['value'], case, 'Ls')
+        roundtrip(ctx, real, case['value'], case, 'Ls', hist=True)
     elif kind == 'S':
         P = real.policy
         try:
@@ -204,6 +370,32 @@ def check_case(ctx, real, case):
                 ctx.violation('reloaded-ruleset-decides-differently', case,
                               {'rule': name, 'value': case['rules'][name], 'dump': dumped, 'decisions': v1, 'after_reload': v2})
                 return
+        # dump - enforce - dump: every rule of the living set is enforced in all worlds; the dump taken before must still
+        # be the dump of the set, and loading it must give a set that dumps like the living one
+        try:
+            orders = {name: real.world_order(str(r1[name]))[0] for name in sorted(r1)}
+            living = dict(real.helpers)
+            living.update(r1)
+            real.enf.set_rules(P.Rules(living))
+            for name in sorted(r1):
+                for w in orders[name]:
+                    creds, target = WORLDS[w]
+                    try:
+                        real.enf.enforce(name, target, creds)
+                    except Exception:
+                        pass
+            after = str(r1)
+            from_first = str(P.Rules.load(dumped))
+        except Exception as e:
+            ctx.violation('ruleset-dump-or-load-raises', case, {'rules': case['rules'], 'after': 'enforcing every rule', 'observed': type(e).__name__ + ': ' + str(e)[:100]})
+            return
+        ctx.count('dumps_after_enforcing')
+        if after != dumped:
+            ctx.violation('ruleset-dump-changes-by-enforcing', case, {'rules': case['rules'], 'dump': dumped, 'dump_after_enforcing_every_rule': after})
+            return
+        if from_first != after:
+            ctx.violation('ruleset-dump-not-a-fix-point', case, {'rules': case['rules'], 'after': 'enforcing every rule', 'dump': after, 'redump': from_first})
+            return
         # the rule set changes after it was dumped once (merge via update / item assignment / deletion): a second dump
         # must describe the rule set as it is NOW
         if case.get('then'):
